@@ -482,10 +482,10 @@ static Verdict c05_pair(const Case& c) {
     }
   }
   if (singular) { Verdict S = Verdict::skip("singular-within-one-ulp"); return S; }
-  // kappa = k2 + kc: the forward relation is expected to deliver its result to a few ulps (forward error), which the inverse amplifies by kc; the inverse's own
-  // roundings act like perturbations of its arguments (k2 + kc).  k1 (sensitivity of the forward relation to its operands) is measured and reported but NOT allowed
-  // for: a forward relation that is merely backward stable (cp = gamma cv rounded, then cp - cv) loses the operand to cancellation - the pinned tree needs no such
-  // allowance (3 x 24.8 million thorough cases), and a change that introduces it is a violation of "to within a few ulps"
+  // kappa = k2 + kc: the forward relation is expected to deliver its result to a few ulps, which the inverse amplifies by kc; the inverse's own roundings act like
+  // perturbations of its arguments (k2 + kc).  The allowance for k2 is needed by the pinned tree itself: cp (1 - 1/gamma) and gamma R / (gamma - 1) lose 1 / |gamma - 1| ulps
+  // near gamma = 1 (2e9 ulp in long double at gamma = 1 - 2^-32), which is the conditioning of those maps with respect to gamma.  k1 (sensitivity of the forward
+  // relation to its own operands) is measured and reported but not allowed for a second time: the pinned tree passes without it (5 x 24.8 million thorough cases)
   const double kappa = k2 + kc;
   double worst = 0; int wq = 0;
   for (int q = 0; q < na; q++) { const double e = (double)(std::fabs(a2[q] - a[q]) / ulp_at(nt, scale_of(q))); if (!(e <= worst)) { worst = e; wq = q; } }
@@ -503,9 +503,20 @@ static rc::Gen<Case> gen_c05(int inst) {
   const int n = total_comps(r1), nt = P.nt, w = wide_window(nt, r1->nargs);
   bool vec = false; for (int a = 0; a < r1->nargs; a++) if (r1->args[a].ncomp > 1) vec = true;
   // "for all positive finite inputs"; components of vector/tensor operands may have either sign
-  return rc::gen::map(gen_reals(n, nt, -w, w, vec ? kNeg : 0u), [=](const std::vector<LD>& v) {
-    Case c; c.i = {inst}; c.r = v;
-    size_t p = 0; for (int a = 0; a < r1->nargs; a++) { for (int j = 0; j < r1->args[a].ncomp; j++, p++) if (r1->args[a].ncomp == 1) c.r[p] = std::fabs(c.r[p]); }
+  return rc::gen::map(rc::gen::tuple(gen_reals(n, nt, -w, w, vec ? kNeg : 0u), rc::gen::container<std::vector<int>>((size_t)r1->nargs, irange(0, 999))), [=](const std::tuple<std::vector<LD>, std::vector<int>>& t) {
+    Case c; c.i = {inst}; c.r = std::get<0>(t);
+    size_t p = 0;
+    for (int a = 0; a < r1->nargs; a++) {
+      // dimensionless scalar operands (ratios, Mach / Reynolds / Prandtl numbers, Poisson's ratio): half of the cases close to one, 1 +- 2^-k (1 + f) -
+      // where relations that involve x - 1 or 1 - 1/x lose the operand if they are evaluated carelessly
+      const int r = std::get<1>(t)[(size_t)a];
+      if (r1->args[a].ncomp == 1 && r1->args[a].kind == 1 && r % 2 == 0) {
+        const int k = 1 + (r / 2) % (ntinfo(nt).mant - 3);
+        const LD f = std::ldexp(std::fabs(c.r[p]), -std::ilogb(std::fabs(c.r[p]) > 0 ? std::fabs(c.r[p]) : (LD)1)) - 1;   // the generated mantissa, in [0, 1)
+        c.r[p] = round_to(nt, 1 + ((r / 2) % 2 ? -1 : 1) * std::ldexp(1 + f, -k));
+      }
+      for (int j = 0; j < r1->args[a].ncomp; j++, p++) if (r1->args[a].ncomp == 1) c.r[p] = std::fabs(c.r[p]);
+    }
     return c;
   });
 }
